@@ -141,6 +141,12 @@ type Module interface {
 	NonTrivial(x *X) bool
 }
 
+// Tamperer is implemented by a module that can damage an exported genesis in ways its ValidateGenesis may
+// or may not notice (k selects the damage); what names the damage.
+type Tamperer interface {
+	Tamper(x *X, c *Chain, raw json.RawMessage, k int) (tampered json.RawMessage, what string, ok bool)
+}
+
 // EnvModule is implemented by a module whose export / import reads another module's state: Env prints,
 // for the objects of chain a, what chain c's other module says about them.
 type EnvModule interface {
@@ -285,6 +291,34 @@ func runPath(x *X, m Module, a *Chain, initHeight, queryHeight int64, tag string
 	}
 	x.Scratch["importOK"] = kind == "ok" // Cross may ask B only when the import succeeded
 	cross = m.Cross(x, a, b)
+	// a TAMPERED copy of the exported genesis (as-is path only): ValidateGenesis, then InitGenesis on another
+	// fresh chain — the model must give the same two verdicts, and a validated genesis must not panic
+	tamper := ""
+	if tm, ok := m.(Tamperer); ok {
+		tamper = "None"
+		if tag == "asis" && err == nil {
+			if traw, what, ok := tm.Tamper(x, a, raw, len(x.Steps)+x.Stats["res:ok"]); ok {
+				tg := m.Genesis(x, a, traw)
+				tverr := validateModule(a, name, traw)
+				b2 := freshB(a, initHeight)
+				for _, d := range m.Deps() {
+					if draw, err := exportModule(a, d); err == nil {
+						wipeStore(b2, d)
+						initModule(b2, d, draw)
+					}
+				}
+				wipeStore(b2, name)
+				tkind, tmsg := initModule(b2, name, traw)
+				timp := 0
+				if tkind != "ok" {
+					timp = 2
+				}
+				lib.Stat(x.Stats, fmt.Sprintf("%s/tamper/%s/validate:%v/import:%s", name, what, tverr == nil, tkind))
+				x.Steps = append(x.Steps, fmt.Sprintf("%s/tamper %s: validate=%v import %s %s", name, what, tverr, tkind, trunc(tmsg, 120)))
+				tamper = "(Some " + lib.Pair(tg, lib.B(tverr == nil), lib.Z(int64(timp))) + ")"
+			}
+		}
+	}
 	args := []string{sA, gA, lib.B(verr == nil), lib.Z(int64(imp)), sB, gB}
 	if em, ok := m.(EnvModule); ok {
 		// the state of the modules this one reads from, on A and on B (unchanged by this module's import)
@@ -292,6 +326,9 @@ func runPath(x *X, m Module, a *Chain, initHeight, queryHeight int64, tag string
 	}
 	if cross != "" {
 		args = append(args, cross)
+	}
+	if tamper != "" {
+		args = append(args, tamper)
 	}
 	return lib.App("mkRun", args...)
 }
